@@ -121,6 +121,9 @@ func (p *Program) goType(t *Ty, from int) string {
 		case 0:
 			return "interface{}"
 		case 1:
+			if t.ID == 9 { // a second signature (identity 9): func with a result
+				return "func() string"
+			}
 			return "func()"
 		default:
 			return "chan int"
